@@ -2,6 +2,7 @@ package main
 
 import (
 	"context"
+	"errors"
 	"flag"
 	"fmt"
 	"math/rand"
@@ -19,7 +20,12 @@ import (
 //	           empty queue | far-future head (1 h) | paused head | inside a 100 ms job in blocking mode |
 //	           blocked on a full worker pool (WorkerLimit 1, the worker busy for 100 ms) | "vanishing": a due job that
 //	           was deleted between the loop's Head() and its tick, so that the tick finds an honestly empty queue
-//	           (RetryInterval is 2 s in every scenario: a back-off started by that empty Pop would hold the job back)
+//	           (RetryInterval is 2 s in every scenario: a back-off started by that empty Pop would hold the job back) |
+//	           "ended": a job whose custom trigger ends with an error of its own (NOT quartz.ErrTriggerExpired; the
+//	           Trigger interface only says "error") has just fired for the last time: the queue is healthy, so the
+//	           loop must not be in its failure back-off (2 s) when the call under test arrives
+//	end error  the one-shot triggers of the auxiliary jobs (blocker, pool filler, vanishing job) and of the job under
+//	           test end with ErrTriggerExpired | an error of their own | ErrTriggerExpired wrapped | their own wrapped
 //	call       ScheduleJob of a new due-soon job | ScheduleJob with Replace bringing an existing job forward |
 //	           ResumeJob of a paused job whose trigger is due soon
 //	stall      the loop's next Size() / Head() call (made by the loop only) reads the queue and then sleeps
@@ -116,15 +122,35 @@ func (j *wuJob) Execute(ctx context.Context) error {
 }
 func (j *wuJob) Description() string { return "wakeup" }
 
-// wuOnce fires once, delay after the time it is asked, and records that fire time.
+// wuOnce fires once, delay after the time it is asked, and records that fire time. Afterwards it answers with
+// endErr (nil: quartz.ErrTriggerExpired): the Trigger interface does not prescribe which error ends a schedule.
 type wuOnce struct {
-	delay time.Duration
-	fire  atomic.Int64
+	delay  time.Duration
+	fire   atomic.Int64
+	endErr error
+}
+
+// errWuDone is a trigger's own way of saying "no further fire time" (deliberately not quartz.ErrTriggerExpired).
+var errWuDone = errors.New("wakeup harness: schedule of this trigger is complete")
+
+func wuEndErr(kind string) error {
+	switch kind {
+	case "own":
+		return errWuDone
+	case "own-wrapped":
+		return fmt.Errorf("no more fire times: %w", errWuDone)
+	case "expired-wrapped":
+		return fmt.Errorf("no more fire times: %w", quartz.ErrTriggerExpired)
+	}
+	return nil
 }
 
 func (t *wuOnce) NextFireTime(prev int64) (int64, error) {
 	v := prev + int64(t.delay)
 	if !t.fire.CompareAndSwap(0, v) {
+		if t.endErr != nil {
+			return 0, t.endErr
+		}
 		return 0, quartz.ErrTriggerExpired
 	}
 	return v, nil
@@ -133,13 +159,14 @@ func (t *wuOnce) Description() string { return "once" }
 
 type wuScenario struct {
 	Park, Call, Stall, Inter string
+	EndErr                   string // how the one-shot triggers of the scenario end: expired | own | own-wrapped | expired-wrapped
 	Delay, StallFor          time.Duration
 	InterFirst               bool // the interleaver starts slightly before the call
 	ID                       int
 }
 
 func (sc wuScenario) String() string {
-	return fmt.Sprintf("#%d park=%s call=%s stall=%s(%v) interleave=%s due-in=%v", sc.ID, sc.Park, sc.Call, sc.Stall, sc.StallFor, sc.Inter, sc.Delay)
+	return fmt.Sprintf("#%d park=%s call=%s stall=%s(%v) interleave=%s due-in=%v trigger-end-error=%s", sc.ID, sc.Park, sc.Call, sc.Stall, sc.StallFor, sc.Inter, sc.Delay, sc.EndErr)
 }
 
 type wuResult struct {
@@ -221,7 +248,7 @@ func wuRunScenario(sc wuScenario) (res wuResult) {
 	// the job under test and its pre-state
 	target := &wuJob{}
 	key := quartz.NewJobKey("target")
-	trig := &wuOnce{delay: sc.Delay}
+	trig := &wuOnce{delay: sc.Delay, endErr: wuEndErr(sc.EndErr)}
 	switch sc.Call {
 	case "resume":
 		if err := s.ScheduleJob(quartz.NewJobDetailWithOptions(target, key, suspended()), trig); err != nil {
@@ -249,7 +276,7 @@ func wuRunScenario(sc wuScenario) (res wuResult) {
 		settle()
 		q.stallHead.Store(int64(25 * time.Millisecond))
 		gone := quartz.NewJobKey("vanishing")
-		if err := s.ScheduleJob(quartz.NewJobDetail(&wuJob{}, gone), &wuOnce{delay: 2 * time.Millisecond}); err != nil {
+		if err := s.ScheduleJob(quartz.NewJobDetail(&wuJob{}, gone), &wuOnce{delay: 2 * time.Millisecond, endErr: wuEndErr(sc.EndErr)}); err != nil {
 			return fail("schedule vanishing job", err)
 		}
 		select {
@@ -270,11 +297,24 @@ func wuRunScenario(sc wuScenario) (res wuResult) {
 		default:
 		}
 	}
+	if sc.Park == "ended" {
+		// a job whose trigger has one fire time and then ends with its own error fires (for the last time) and leaves
+		// the queue: nothing has failed, the loop goes back to waiting for the head / for a queue change
+		ender := &wuJob{sig: make(chan struct{})}
+		if err := s.ScheduleJob(quartz.NewJobDetail(ender, quartz.NewJobKey("ender")), &wuOnce{delay: 2 * time.Millisecond, endErr: wuEndErr(sc.EndErr)}); err != nil {
+			return fail("schedule ender", err)
+		}
+		select {
+		case <-ender.sig:
+		case <-time.After(3 * time.Second):
+			return fail("ender", fmt.Errorf("did not start within 3 s"))
+		}
+	}
 	// busy loop: a 100 ms job in blocking mode / on the only worker (+ a second due job that finds the pool full)
 	var blocker *wuJob
 	if sc.Park == "blocking" || sc.Park == "pool" {
 		blocker = &wuJob{block: 100 * time.Millisecond, sig: make(chan struct{})}
-		if err := s.ScheduleJob(quartz.NewJobDetail(blocker, quartz.NewJobKey("blocker")), &wuOnce{delay: 2 * time.Millisecond}); err != nil {
+		if err := s.ScheduleJob(quartz.NewJobDetail(blocker, quartz.NewJobKey("blocker")), &wuOnce{delay: 2 * time.Millisecond, endErr: wuEndErr(sc.EndErr)}); err != nil {
 			return fail("schedule blocker", err)
 		}
 		select {
@@ -284,7 +324,7 @@ func wuRunScenario(sc wuScenario) (res wuResult) {
 		}
 		if sc.Park == "pool" {
 			pops := q.pops.Load()
-			if err := s.ScheduleJob(quartz.NewJobDetail(&wuJob{}, quartz.NewJobKey("filler")), &wuOnce{delay: time.Millisecond}); err != nil {
+			if err := s.ScheduleJob(quartz.NewJobDetail(&wuJob{}, quartz.NewJobKey("filler")), &wuOnce{delay: time.Millisecond, endErr: wuEndErr(sc.EndErr)}); err != nil {
 				return fail("schedule filler", err)
 			}
 			// the loop has popped the filler and now waits for the busy worker
@@ -427,14 +467,14 @@ func wuRunScenario(sc wuScenario) (res wuResult) {
 func wakeupRun(args []string) int {
 	fs := flag.NewFlagSet("wakeup", flag.ExitOnError)
 	seed := fs.Int64("seed", 1, "")
-	n := fs.Int("n", 576, "number of scenarios (the matrix has 288 cells)")
+	n := fs.Int("n", 672, "number of scenarios (the matrix has 336 cells)")
 	par := fs.Int("par", 12, "schedulers running in parallel")
 	out := fs.String("out", "", "")
 	fs.Parse(args)
 	r := rand.New(rand.NewSource(*seed))
 
 	var cells []wuScenario
-	for _, park := range []string{"empty", "far", "paused", "blocking", "pool", "vanishing"} {
+	for _, park := range []string{"empty", "far", "paused", "blocking", "pool", "vanishing", "ended"} {
 		for _, call := range []string{"schedule", "replace", "resume"} {
 			for _, stall := range []string{"none", "size", "head", "mutation"} {
 				for _, inter := range []string{"none", "delete", "pause", "clear"} {
@@ -453,6 +493,10 @@ func wakeupRun(args []string) int {
 		sc.Delay = time.Duration(3+r.Intn(8)) * time.Millisecond
 		sc.StallFor = time.Duration(20+r.Intn(21)) * time.Millisecond
 		sc.InterFirst = r.Intn(2) == 0
+		sc.EndErr = []string{"expired", "own", "own-wrapped", "expired-wrapped"}[(i/len(cells)+i%len(cells))%4]
+		if sc.Park == "ended" { // the park class is about a trigger's own error
+			sc.EndErr = []string{"own", "own-wrapped"}[(i/len(cells)+i%len(cells))%2]
+		}
 		if sc.Inter == "delete+pause-first" {
 			sc.Inter = []string{"delete", "pause"}[r.Intn(2)]
 			sc.InterFirst = true
@@ -482,10 +526,16 @@ func wakeupRun(args []string) int {
 
 	// second opinion for late scenarios, alone on the machine
 	viol := []string{}
-	dist := map[string]map[string]int{"park": {}, "call": {}, "stall": {}, "interleave": {}, "outcome": {}, "latency": {}}
-	reruns := 0
+	dist := map[string]map[string]int{"park": {}, "call": {}, "stall": {}, "interleave": {}, "outcome": {}, "latency": {}, "trigger_end_error": {}}
+	reruns, confirmed := 0, 0
 	for i := range results {
 		res := &results[i]
+		if res.Outcome == "late" && confirmed >= 8 {
+			// eight scenarios have been confirmed late by a run alone already: the verdict of the run is settled, the
+			// remaining late ones are listed without a second opinion of their own (each re-run costs seconds)
+			res.Outcome = "late-not-rerun"
+			continue
+		}
 		if res.Outcome == "late" {
 			again := 0
 			for k := 0; k < 3; k++ {
@@ -499,6 +549,8 @@ func wakeupRun(args []string) int {
 			}
 			if again == 0 {
 				res.Outcome = "late-under-load"
+			} else {
+				confirmed++
 			}
 		}
 	}
@@ -515,6 +567,7 @@ func wakeupRun(args []string) int {
 		}
 		dist["stall"][st]++
 		dist["interleave"][sc.Inter]++
+		dist["trigger_end_error"][sc.EndErr]++
 		dist["outcome"][res.Outcome]++
 		switch res.Outcome {
 		case "never", "late":
